@@ -13,6 +13,7 @@ mod campaign;
 mod common;
 mod gf2;
 mod hist;
+mod selftest;
 
 use common::*;
 
@@ -48,6 +49,7 @@ fn main() {
             _ => usage(),
         },
         "C17" => c17::main(&parse_opts(&args[1..])),
+        "selftest" => selftest::main(&parse_opts(&args[1..])),
         "replay" => {
             let path = args.get(1).unwrap_or_else(|| usage());
             let body: serde_json::Value = serde_json::from_str(
